@@ -54,11 +54,19 @@ def goenv():
     return e
 
 
+_zv = {}
+
+
 def build_zv(cover=False):
     """Build the harness against /repo's current working tree, hooks enabled."""
+    global _zv
+    if _zv.get(cover):
+        return _zv[cover]
     os.makedirs(BUILD, exist_ok=True)
     hdir = HARNESS
-    out = os.path.join(BUILD, "zv")
+    # every run builds its own binary (checks of several properties may run at the same time); a copy is
+    # published at .build/zv by an atomic rename, for replays by hand
+    out = os.path.join(scratch(), "zv")
     if os.path.realpath(REPO) != "/repo":
         # development aid: check a scratch copy of the repository (VERIF_REPO=/path)
         hdir = os.path.join(scratch(), "harness")
@@ -78,6 +86,14 @@ def build_zv(cover=False):
         p2 = subprocess.run(["go1.26"] + cmd[1:], cwd=hdir, env=e, capture_output=True, text=True)
         if p2.returncode != 0:
             raise Inconclusive("harness does not build against /repo:\n" + p.stderr[-3000:] + p2.stderr[-1000:])
+    if os.path.realpath(REPO) == "/repo":
+        try:
+            tmp = os.path.join(BUILD, "zv.%d" % os.getpid())
+            shutil.copy(out, tmp)
+            os.replace(tmp, os.path.join(BUILD, "zv"))
+        except OSError:
+            pass
+    _zv[cover] = out
     return out
 
 
